@@ -38,6 +38,9 @@ class _Undefined:
 UNDEFINED = _Undefined()
 
 
+RE_INDEX = re.compile(r"-?[0-9]+")
+
+
 class JSONPointer:
     """Identify a single, specific value in JSON-like data, as per RFC 6901.
 
@@ -112,13 +115,15 @@ class JSONPointer:
         if len(s) > 1 and s.startswith("0"):
             return s
 
-        try:
-            index = int(s)
-            if index < self.min_int_index or index > self.max_int_index:
-                raise JSONPointerIndexError("index out of range")
-            return index
-        except ValueError:
+        # `int()` is more liberal than RFC 6901 array indexes. It accepts a
+        # leading "+", surrounding whitespace, underscores and non-ASCII digits.
+        if not RE_INDEX.fullmatch(s):
             return s
+
+        index = int(s)
+        if index < self.min_int_index or index > self.max_int_index:
+            raise JSONPointerIndexError("index out of range")
+        return index
 
     def _getitem(self, obj: Any, key: Any) -> Any:  # noqa: PLR0912
         try:
